@@ -53,7 +53,8 @@ class Interp(BuiltinsMixin):
         self.max_paths = max_paths
         self.rule = rule
         self.stack = []           # FuncInfo of inlined calls
-        self.try_stack = []       # handler types of the enclosing try bodies
+        self.try_stack = []
+        self.try_loops = []       # handler types of the enclosing try bodies
         self.npaths = 0
 
     # ------------------------------------------------------------------
@@ -596,6 +597,9 @@ class Interp(BuiltinsMixin):
         is_for = isinstance(st, ast.For)
         loop = LoopFrame(st, None, self.snapshot(it, path) if is_for else it,
                          path.new_id())
+        if not hasattr(self, 'loop_frames'):
+            self.loop_frames = []
+        self.loop_frames.append(loop)
         entry_pc_len = len(path.pc)
         entry = path
         body_path = entry.fork()
@@ -636,6 +640,10 @@ class Interp(BuiltinsMixin):
                        if h.kind in ('list', 'set', 'dict')}
         for (q, sig) in results:
             if sig is None or sig == CNT or sig == BRK:
+                if sig == BRK:
+                    loop.breaks.append(tuple(
+                        (self.snapshot(c, q), pol)
+                        for (c, pol) in q.pc[entry_pc_len:]))
                 for n in assigned:
                     nv = q.heap[fr].vars.get(n)
                     if nv is not None and not isinstance(nv, Obj):
@@ -790,10 +798,14 @@ class Interp(BuiltinsMixin):
         self.try_stack.append(tuple(
             ast.unparse(h.type) if h.type is not None else 'BaseException'
             for h in st.handlers))
+        # how many loops were open when the try was entered: an exception
+        # raised inside a loop opened later leaves that loop
+        self.try_loops.append(len(path.loops))
         try:
             body_res = self.exec_block(st.body, fr, path)
         finally:
             self.try_stack.pop()
+            self.try_loops.pop()
         handled_any_implicit = False
         for (p, sig) in body_res:
             if isinstance(sig, Raise):
@@ -1085,6 +1097,7 @@ class LoopFrame(object):
         self.updates = {}
         self._new = []
         self._read = []
+        self.breaks = []        # path conditions under which `break` runs
 
     def __repr__(self):
         return 'Loop(%r in %r)' % (self.var, self.iterable)
